@@ -1,1 +1,67 @@
-(* placeholder *)
+(* C10 — external-library options affect only external modules, never internal ones.
+   [keep_import] / [external_modules] model import_filter.py, importee_module_calculator.py and the
+   module filter of graph_generator.py; exclusion patterns on dotted names are the oracle [sc_ext_excl]. *)
+From Coq Require Import List Bool NArith.
+From PTA Require Import Names Graph Search Scan NamesProofs SearchProofs GraphProofs ScanProofs.
+Import ListNotations.
+
+Section C10.
+Context (comp : Type) (ceqb : comp -> comp -> bool) (ceqb_spec : forall x y, reflect (x = y) (ceqb x y)).
+
+(* externals excluded (default): no import to a module outside module_path, no external module *)
+Theorem C10_excluded_no_external_import : forall (c : @scan_cfg comp) i,
+  sc_exclude_external c = true -> keep_import ceqb c i = true -> is_internal ceqb c (i_importee i) = true.
+Proof. exact (excluded_no_external ceqb). Qed.
+
+Theorem C10_excluded_no_external_module : forall (c : @scan_cfg comp) imports,
+  sc_exclude_external c = true -> external_modules ceqb c imports = [].
+Proof. exact (excluded_no_external_modules ceqb). Qed.
+
+(* included: every imported external module appears together with all of its ancestor packages *)
+Theorem C10_included_ancestors : forall (c : @scan_cfg comp) imports i m,
+  sc_exclude_external c = false -> sc_has_ext_excl c = false ->
+  In i imports -> is_internal ceqb c (i_importee i) = false ->
+  (m = i_importee i \/ In m (i_chain i)) -> In m (external_modules ceqb c imports).
+Proof. exact (included_ancestors ceqb). Qed.
+
+(* an external matching a pattern, or with a matching ancestor, disappears together with its imports *)
+Theorem C10_pattern_removes_import : forall (c : @scan_cfg comp) i,
+  sc_exclude_external c = false -> sc_has_ext_excl c = true -> is_internal ceqb c (i_importee i) = false ->
+  (sc_ext_excl c (i_importee i) = true \/ exists p, In p (i_chain i) /\ sc_ext_excl c p = true) ->
+  keep_import ceqb c i = false.
+Proof. exact (pattern_removes_import ceqb). Qed.
+
+Theorem C10_pattern_removes_module : forall (c : @scan_cfg comp) imports m,
+  sc_exclude_external c = false -> sc_has_ext_excl c = true -> sc_ext_excl c m = true ->
+  ~ In m (external_modules ceqb c imports).
+Proof. exact (pattern_removes_module ceqb). Qed.
+
+(* in every configuration: an import of an internal module is kept, and every module the options add is external -
+   external options and patterns never add, remove or alter anything internal *)
+Theorem C10_internal_import_kept : forall (c : @scan_cfg comp) i,
+  is_internal ceqb c (i_importee i) = true -> keep_import ceqb c i = true.
+Proof. intros c i. exact (internal_imports_invariant ceqb c c i). Qed.
+
+Theorem C10_added_modules_external : forall (c : @scan_cfg comp) imports m,
+  (forall i, In i imports -> forall p, In p (i_chain i) -> prefixb ceqb p (i_importee i) = true) ->
+  In m (external_modules ceqb c imports) -> is_internal ceqb c m = false.
+Proof. exact (external_modules_are_external ceqb ceqb_spec). Qed.
+End C10.
+
+Print Assumptions C10_excluded_no_external_import.
+Print Assumptions C10_excluded_no_external_module.
+Print Assumptions C10_included_ancestors.
+Print Assumptions C10_pattern_removes_import.
+Print Assumptions C10_pattern_removes_module.
+Print Assumptions C10_internal_import_kept.
+Print Assumptions C10_added_modules_external.
+
+(* non-vacuity: proj/m.py imports logging.handlers (9.10), os (11) and proj.n; pattern excludes 'logging' *)
+Open Scope N_scope.
+Example C10_example :
+  let tree := [FFile 2 true [SImport [[9;10]]; SImport [[11]]; SImport [[1;3]]]; FFile 3 true []] in
+  let c := {| sc_root := 1; sc_tree := tree; sc_mp := []; sc_excl := fun _ => false; sc_exclude_external := false;
+              sc_ext_excl := fun m => match m with [9] => true | _ => false end; sc_has_ext_excl := true; sc_limit := None |} in
+  option_map (fun r => (nodes (sr_graph r), imps (sr_graph r))) (scan N.eqb c)
+  = Some ([[1]; [1;2]; [1;3]; [11]], [([1;2], [11]); ([1;2], [1;3])]).
+Proof. vm_compute. reflexivity. Qed.
